@@ -131,6 +131,7 @@ type ArgCountError struct {
 }
 
 func newArgCountError(f jtypes.Callable, received int) *ArgCountError {
+	simYield("err.name", f)
 	return &ArgCountError{
 		Func:     f.Name(),
 		Expected: f.ParamCount(),
@@ -151,6 +152,7 @@ type ArgTypeError struct {
 }
 
 func newArgTypeError(f jtypes.Callable, which int) *ArgTypeError {
+	simYield("err.name", f)
 	return &ArgTypeError{
 		Func:  f.Name(),
 		Which: which,
